@@ -45,9 +45,18 @@ theorem C05_facts_ok :
     PlzVerif.Generated.C04.sk_WaitForPackage = Facts.expected_sk_WaitForPackage ∧
     PlzVerif.Generated.C04.sk_handleOutput = Facts.expected_sk_handleOutput ∧
     PlzVerif.Generated.C04.initFacts = Facts.expectedInitFacts ∧
+    -- the liveness mechanisms outside the task counting: the active set that arms the cycle check, the wake-up of the
+    -- waiters of a target on success and on failure, no wait for a target that has already failed
+    PlzVerif.Generated.C04.sk_forwardResults = Facts.expected_sk_forwardResults ∧
+    PlzVerif.Generated.C04.sk_LogBuildResult = Facts.expected_sk_LogBuildResult ∧
+    PlzVerif.Generated.C04.sk_TargetFailed = Facts.expected_sk_TargetFailed ∧
+    PlzVerif.Generated.C04.sk_WaitForBuiltTarget = Facts.expected_sk_WaitForBuiltTarget ∧
+    Facts.failClearsOf PlzVerif.Generated.C04.activeSet = true ∧
+    Facts.failWakesOf PlzVerif.Generated.C04.wakeFacts = true ∧
+    Facts.lateOKOf PlzVerif.Generated.C04.wakeFacts = true ∧
     -- the dependency wait loop: wait first, then the DependencyFailed test, no state test that passes a dependency over
     PlzVerif.Generated.C04.waitLoop = Facts.expectedWaitLoop ∧ Facts.skipOf PlzVerif.Generated.C04.waitSkip = none :=
-  ⟨rfl, rfl, rfl, rfl, rfl, rfl, rfl, rfl, rfl, rfl, rfl, rfl, rfl, rfl, rfl⟩
+  ⟨rfl, rfl, rfl, rfl, rfl, rfl, rfl, rfl, rfl, rfl, rfl, rfl, rfl, rfl, rfl, rfl, rfl, rfl, rfl, rfl, rfl, rfl⟩
 
 /-- **Progress measure**: every step of the scheduler either leaves the state unchanged (a redundant activation
     or `Stop`) or strictly decreases `mu` — whatever the graph (cycles included), the failures, the number of
